@@ -338,6 +338,44 @@ def _nests():
 NESTS = _nests()
 
 
+def _scope_cases(max_depth=4):
+    """`break` at every position of every nesting (up to four levels) of loop / if / routine
+    definition / matrix block.  The documented rule, stated independently of the compiler:
+    `break` is allowed iff, going outwards from it, a `repeat` is met before any routine
+    definition or matrix block (a routine body and a matrix block start with no loop around
+    them).  A position is `inside the innermost body` or `after the k innermost constructs have
+    been closed`."""
+    import itertools
+    parts = {'loop': 'repeat 2 begin print {n} {body} end',
+             'if': 'if {{1 > 0}} begin print {n} {body} end',
+             'define': 'define fn{n} begin print {n} {body} end',
+             'matrix': 'set "Candle" begin stage row 0 {body} end'}
+    out = []
+    for depth in range(1, max_depth + 1):
+        for combo in itertools.product(parts, repeat=depth):
+            if combo.count('define') > 1 or combo.count('matrix') > 1:
+                continue
+            for closed in range(0, depth):        # how many innermost constructs are closed
+                open_path = combo[:depth - closed]
+                text = 'print 0' if closed else 'break'
+                for level in range(depth - 1, -1, -1):
+                    text = parts[combo[level]].format(n=level + 1, body=text)
+                    if closed and level == depth - closed:
+                        text = text + ' break'
+                legal = False
+                for kind in reversed(open_path):
+                    if kind == 'loop':
+                        legal = True
+                        break
+                    if kind in ('define', 'matrix'):
+                        break
+                out.append((text, 'accept' if legal else 'reject', '/'.join(combo) + '@' + str(closed)))
+    return out
+
+
+SCOPES = _scope_cases()
+
+
 def main():
     chk = Check('C06', extra_modules=['Bardolph.Proofs.Closed', 'Bardolph.Proofs.ClosedGen', 'Bardolph.Proofs.ClosedSplit', 'Bardolph.Proofs.ClosedLoad'])
     chk.lean_phase(sections=set())
@@ -371,6 +409,9 @@ def main():
         inputs.append(('rule:' + name, text))
     for text in NESTS:
         inputs.append(('valid', text))
+    for text, expect, _label in SCOPES:
+        inputs.append(('valid' if expect == 'accept' else 'rule:break-outside-loop', text))
+    stats['scope_cases'] = len(SCOPES)
     stats['rules'] = len(RULES)
     for stream, text in inputs:
         stats['inputs'] += 1
